@@ -372,7 +372,8 @@ PROCS = [("src/lib.rs", "dealloc_chunk_list", "dealloc_chunk_list"),
          ("src/collections/vec.rs", "truncate", "vec_truncate_loop", ("for", 1)),
          ("src/lib.rs", "alloc_slice_fill_with", "slice_fill_with_loop", ("for", 1)),
          ("src/lib.rs", "try_alloc_slice_fill_with", "try_slice_fill_with_loop", ("for", 1)),
-         ("src/lib.rs", "alloc_slice_try_fill_with", "slice_try_fill_with_loop", ("for", 1))]
+         ("src/lib.rs", "alloc_slice_try_fill_with", "slice_try_fill_with_loop", ("for", 1)),
+         ("src/collections/vec.rs", "extend_with", "vec_extend_with")]
 CONST_FILE = "src/lib.rs"
 
 
@@ -658,7 +659,7 @@ class Parser:
                 self.eat("{")
                 body = self.proc_stmts()
                 self.eat("}")
-                out.append("SRepeat (EBin BSub %s %s) [%s]" % (hi, lo, "; ".join(body)))
+                out.append("SRepeat (EMeth1 %s \"saturating_sub\" %s) [%s]" % (hi, lo, "; ".join(body)))
             elif tok == "for" and self.kind(1) == "id" and self.peek(1) != "_" and self.peek(2) == "in":
                 # for i in lo..hi { body }: the counter is an ordinary binding that starts at lo and goes
                 # up by one after each round (what Range<usize>::next does); hi - lo rounds
@@ -673,7 +674,7 @@ class Parser:
                 self.eat("}")
                 body.append("SSet %s (EBin BAdd (EVar %s) (ELit 1))" % (q(ivar), q(ivar)))
                 out.append("SLet %s %s" % (q(ivar), lo))
-                out.append("SRepeat (EBin BSub %s %s) [%s]" % (hi, lo, "; ".join(body)))
+                out.append("SRepeat (EMeth1 %s \"saturating_sub\" %s) [%s]" % (hi, lo, "; ".join(body)))
             elif tok == "match" and self.kind(1) == "id" and self.peek(1) in self.closures and self.peek(2) == "(":
                 # match f(args) { Ok(x) => <one call>, Err(e) => { .. } }: the closure is asked (its answer,
                 # Ok = true / Err = false, comes from the script; None: it panics); the value carried by
@@ -812,6 +813,13 @@ class Parser:
                         c = self.eat()
                         ca = self.args()
                         out.append("SDoMay %s [%s]" % (q(c), "; ".join(ca)))
+                    elif self.kind() == "id" and self.peek() in self.closures and self.peek(1) == "." and self.kind(2) == "id" and self.peek(3) == "(":
+                        # a method of a caller-supplied object (`value.next()`: a clone): the same
+                        c = self.eat()
+                        self.eat()
+                        m = self.eat()
+                        ca = self.args()
+                        out.append("SDoMay %s [%s]" % (q(c + "." + m), "; ".join(ca)))
                     elif self.kind() == "id" and self.peek() in self.dropvars and self.peek(1) in (",", ")"):
                         self.eat()      # the value a closure's answer carried
                     else:
@@ -1093,6 +1101,8 @@ class Parser:
                     return "ENone"
                 if name == "unreachable_unchecked":
                     return "EPanic"
+                if segs == ["SetLenOnDrop", "new"] and len(a) == 1:
+                    return a[0]          # the guard starts from the length it is given (and writes it back when dropped)
                 if len(a) == 1:
                     return "(ECall1 %s %s)" % (q(name), a[0])
                 if len(a) == 2:
